@@ -2511,6 +2511,7 @@ char *_GD_ParseFragment(FILE *restrict fp, DIRFILE *D, struct parser_state *p,
 
     if (n_cols == 0) {/* a blank line */
       free(outstring);
+      free(instring);
       continue;
     }
     else if (n_cols < 2) /* any valid, non-blank line has at least two tokens */
